@@ -174,10 +174,15 @@ func (d *Discharger) Discharge(w *World, o *Obligation) {
 	file := filepath.Join(d.tmp, hs+".smt2")
 	os.WriteFile(file, []byte(qtext), 0o644)
 	defer os.Remove(file)
+	ufile := filepath.Join(d.tmp, hs+".uf.smt2")
+	hasStr := strings.Contains(qtext, "String") || strings.Contains(qtext, "str.")
+	if hasStr {
+		os.WriteFile(ufile, []byte(toUF(qtext)), 0o644)
+		defer os.Remove(ufile)
+	}
 
 	record := func(r solveResult) {
 		d.mu.Lock()
-		d.total += r.Time
 		if r.Status == "unsat" {
 			d.stats[r.Solver]++
 		}
@@ -189,76 +194,92 @@ func (d *Discharger) Discharge(w *World, o *Obligation) {
 			os.WriteFile(filepath.Join(dir, hs+".json"), b, 0o644)
 		}
 	}
-	// stage 1: z3-new alone, short
+	type variant struct {
+		s   solverSpec
+		uf  bool
+		tmo int
+	}
+	type rr struct {
+		v        variant
+		res, txt string
+		el       float64
+	}
+	runStage := func(vs []variant) (done bool, sat *rr, errs []string) {
+		ctx, cancel := context.WithCancel(context.Background())
+		defer cancel()
+		ch := make(chan rr, len(vs))
+		for _, v := range vs {
+			v := v
+			go func() {
+				f := file
+				if v.uf {
+					f = ufile
+				}
+				r, t, e := runSolver(ctx, v.s, f, v.tmo)
+				ch <- rr{v, r, t, e}
+			}()
+		}
+		for range vs {
+			r := <-ch
+			d.mu.Lock()
+			d.total += r.el
+			d.mu.Unlock()
+			name := r.v.s.name
+			if r.v.uf {
+				name += "/uf"
+			}
+			switch {
+			case r.res == "unsat":
+				o.Status, o.Solver, o.Time = "discharged", name, r.el
+				record(solveResult{"unsat", name, r.el, ""})
+				return true, nil, nil
+			case r.res == "sat" && !r.v.uf:
+				rc := r
+				return false, &rc, nil
+			case r.res == "error":
+				errs = append(errs, name+": "+firstLines(r.txt, 3))
+			}
+		}
+		return false, nil, errs
+	}
 	st1 := 3
 	if d.timeout < st1 {
 		st1 = d.timeout
 	}
-	res, txt, el := runSolver(context.Background(), solvers[0], file, st1)
-	if res == "unsat" {
-		o.Status, o.Solver, o.Time = "discharged", "z3-new", el
-		record(solveResult{"unsat", "z3-new", el, ""})
+	stage1 := []variant{{solvers[0], false, st1}}
+	if hasStr {
+		stage1 = append(stage1, variant{solvers[0], true, st1})
+	}
+	done, sat, errs := runStage(stage1)
+	if done {
 		return
 	}
-	var satModel, satSolver string
-	if res == "sat" {
-		_, mt, _ := runSolver(context.Background(), solvers[0], mfileFor(d, w, o, hs), d.timeout)
-		o.Status, o.Solver, o.Model = "failed", "z3-new", mt
+	if o.Kind == "vacuity" && sat == nil {
+		o.Status = "unknown"
 		return
 	}
-	if res == "error" {
-		o.Model = "solver error (z3-new): " + firstLines(txt, 5)
-	}
-	// stage 2: race all
-	ctx, cancel := context.WithCancel(context.Background())
-	type rr struct {
-		s        string
-		res, txt string
-		el       float64
-	}
-	ch := make(chan rr, len(solvers))
-	for _, s := range solvers {
-		s := s
-		go func() {
-			r, t, e := runSolver(ctx, s, file, d.timeout)
-			ch <- rr{s.name, r, t, e}
-		}()
-	}
-	var errs []string
-	got := 0
-	for got < len(solvers) {
-		r := <-ch
-		got++
-		d.mu.Lock()
-		d.total += r.el
-		d.mu.Unlock()
-		if r.res == "unsat" {
-			cancel()
-			o.Status, o.Solver, o.Time = "discharged", r.s, r.el
-			record(solveResult{"unsat", r.s, r.el, ""})
-			return
-		}
-		if r.res == "sat" && satSolver == "" {
-			satSolver = r.s
-			cancel()
-		}
-		if r.res == "error" {
-			errs = append(errs, r.s+": "+firstLines(r.txt, 3))
-		}
-	}
-	cancel()
-	if satSolver != "" {
-		// fetch a model
-		mfile := filepath.Join(d.tmp, hs+".m.smt2")
-		os.WriteFile(mfile, []byte(w.query(o, true)), 0o644)
+	if sat == nil {
+		var stage2 []variant
 		for _, s := range solvers {
-			if s.name == satSolver {
-				_, mt, _ := runSolver(context.Background(), s, mfile, d.timeout)
-				satModel = mt
+			stage2 = append(stage2, variant{s, false, d.timeout})
+			if hasStr {
+				stage2 = append(stage2, variant{s, true, d.timeout})
 			}
 		}
-		os.Remove(mfile)
-		o.Status, o.Solver, o.Model = "failed", satSolver, satModel
+		var e2 []string
+		done, sat, e2 = runStage(stage2)
+		if done {
+			return
+		}
+		errs = append(errs, e2...)
+	}
+	if sat != nil && o.Kind == "vacuity" {
+		o.Status = "failed"
+		return
+	}
+	if sat != nil {
+		_, mt, _ := runSolver(context.Background(), sat.v.s, mfileFor(d, w, o, hs), d.timeout)
+		o.Status, o.Solver, o.Model = "failed", sat.v.s.name, mt
 		return
 	}
 	o.Status = "unknown"
